@@ -110,7 +110,10 @@ Section Where.
     i_le : forall i e, In (i, e) (puts s) -> e <= started s;
     i_fl : forall i e f, In (i, e) (puts s) -> In i (flush_ids s f) -> e <= f <= S e;
     i_tk : forall i b t, In (i, (b, t)) (taken s) ->
-             t <= length (flushes s) /\ forall f, In i (flush_ids s f) -> t < f
+             t <= length (flushes s) /\ forall f, In i (flush_ids s f) -> t < f;
+    i_pek : map fst (pute s) = map fst (puts s);
+    i_per : forall i pe, In (i, pe) (pute s) -> In i (R s) -> pe = length (flushes s);
+    i_pef : forall i pe f, In (i, pe) (pute s) -> In i (flush_ids s f) -> f = S pe
   }.
 
   Lemma cinv_init : cinv init.
@@ -128,6 +131,9 @@ Section Where.
     - intros _ _ [].
     - intros _ _ [].
     - intros _ _ _ [].
+    - intros _ _ _ [].
+    - reflexivity.
+    - intros _ _ [].
     - intros _ _ _ [].
   Qed.
 
@@ -178,19 +184,19 @@ Section Where.
   Lemma cinv_step s l s' : cinv s -> step s l = Some s' -> cinv s'.
   Proof.
     intros I Hs. pose proof (tokens_step _ _ _ _ _ _ Hs) as Htok.
-    destruct I as [Itok Iph Ind Ifr Ipu Itk Ires Ile Ifl Itkk].
+    destruct I as [Itok Iph Ind Ifr Ipu Itk Ires Ile Ifl Itkk Ipk Ipr Ipf].
     unfold step in Hs. destruct l.
     - (* Take *)
       destruct (lookup d (held s)) eqn:El; [discriminate|].
       destruct (chan s) as [|sl r] eqn:Ec; [discriminate|]. injection Hs as <-.
-      set (s' := St _ _ _ _ _ _ _ _) in *.
+      set (s' := St _ _ _ _ _ _ _ _ _) in *.
       assert (HP : P s' = next_id s :: P s) by reflexivity.
       assert (HR : Permutation (R s') (R s)).
       { rewrite !R_eq. unfold s'. cbn [chan held fl map snd h_slot]. rewrite Ec, !ids_of_cons. cnt. }
       assert (Hnew : ~ In (next_id s) (P s ++ R s ++ F s)) by (intros H; apply Ifr in H; lia).
       assert (Hall : Permutation (P s' ++ R s' ++ F s') (next_id s :: P s ++ R s ++ F s)).
       { rewrite HP. change (F s') with (F s). cbn. apply perm_skip, Permutation_app_head, Permutation_app_tail, HR. }
-      split; cbn [fl flushes started next_id taken puts s'].
+      split; cbn [fl flushes started next_id taken puts pute s'].
       + rewrite Htok; exact Itok.
       + exact Iph.
       + eapply Permutation_NoDup; [symmetry; exact Hall|]. constructor; assumption.
@@ -206,10 +212,13 @@ Section Where.
         * split; [lia|]. intros f Hf. exfalso. apply Hnew. apply in_or_app; right. apply in_or_app; right.
           eapply flush_ids_in_flushed; exact Hf.
         * apply (Itkk i b0 t Hi).
+      + exact Ipk.
+      + intros i pe Hi Hr. apply (Ipr i pe Hi). eapply Permutation_in; [exact HR|exact Hr].
+      + exact Ipf.
     - (* Put *)
       destruct (lookup d (held s)) as [h|] eqn:El; [|discriminate].
       destruct (length (chan s) <? k); [|discriminate]. injection Hs as <-.
-      set (s' := St _ _ _ _ _ _ _ _) in *.
+      set (s' := St _ _ _ _ _ _ _ _ _) in *.
       assert (HP : Permutation (P s) (h_id h :: P s')).
       { unfold pending_ids, s'; cbn. exact (remove_perm (fun dh => h_id (snd dh)) d _ h El). }
       assert (HR : Permutation (R s') (h_id h :: R s)).
@@ -226,7 +235,7 @@ Section Where.
       assert (Hpend : In (h_id h) (P s)) by (eapply Permutation_in; [symmetry; exact HP|left; reflexivity]).
       assert (Hnot : ~ In (h_id h) (R s ++ F s)) by (apply (nodup_excl _ _ _ _ Ind); exact Hpend).
       assert (Hnotp : ~ In (h_id h) (map fst (puts s))) by (intros H; apply Hnot; eapply Permutation_in; [exact Ipu|exact H]).
-      split; cbn [fl flushes started next_id taken puts s'].
+      split; cbn [fl flushes started next_id taken puts pute s'].
       + rewrite Htok; exact Itok.
       + exact Iph.
       + eapply Permutation_NoDup; [exact Hall|exact Ind].
@@ -242,12 +251,19 @@ Section Where.
         * exfalso. apply Hnot. apply in_or_app; right. eapply flush_ids_in_flushed; exact Hf.
         * apply (Ifl i e f Hi Hf).
       + exact Itkk.
+      + cbn [map fst]. f_equal. exact Ipk.
+      + intros i pe [[= <- <-]|Hi] Hr; [reflexivity|].
+        apply (Ipr i pe Hi). eapply Permutation_in in Hr; [|exact HR]. destruct Hr as [<-|Hr]; [|exact Hr].
+        exfalso. apply Hnotp. rewrite <- Ipk. apply (in_map fst) in Hi. exact Hi.
+      + intros i pe f [[= <- <-]|Hi] Hf.
+        * exfalso. apply Hnot. apply in_or_app; right. eapply flush_ids_in_flushed; exact Hf.
+        * apply (Ipf i pe f Hi Hf).
     - (* DrainStart *)
       destruct (fl s) eqn:Ef; try discriminate. injection Hs as <-.
-      set (s' := St _ _ _ _ _ _ _ _) in *.
+      set (s' := St _ _ _ _ _ _ _ _ _) in *.
       assert (HR : R s' = R s) by (rewrite !R_eq; unfold s'; cbn [chan held fl]; rewrite Ef; reflexivity).
       change (P s') with (P s). change (F s') with (F s).
-      split; cbn [fl flushes started next_id taken puts s']; rewrite ?HR; auto.
+      split; cbn [fl flushes started next_id taken puts pute s']; rewrite ?HR; auto.
       + rewrite Htok; exact Itok.
       + red; cbn. red in Iph. rewrite Ef in Iph. lia.
       + intros i e Hi. specialize (Ile i e Hi). lia.
@@ -255,12 +271,12 @@ Section Where.
       destruct (fl s) as [|got|n] eqn:Ef; try discriminate.
       destruct (chan s) as [|sl r] eqn:Ec; [discriminate|].
       destruct (length got <? k); [|discriminate]. injection Hs as <-.
-      set (s' := St _ _ _ _ _ _ _ _) in *.
+      set (s' := St _ _ _ _ _ _ _ _ _) in *.
       assert (HR : Permutation (R s') (R s)).
       { rewrite !R_eq. unfold s'. cbn [chan held fl got_of]. rewrite Ef, Ec. cbn [got_of].
         rewrite ids_of_app, !ids_of_cons, ids_of_nil. cnt. }
       change (P s') with (P s). change (F s') with (F s).
-      split; cbn [fl flushes started next_id taken puts s'].
+      split; cbn [fl flushes started next_id taken puts pute s'].
       + rewrite Htok; exact Itok.
       + red; cbn. red in Iph. rewrite Ef in Iph. exact Iph.
       + eapply Permutation_NoDup; [|exact Ind]. apply Permutation_app_head, Permutation_app_tail. symmetry; exact HR.
@@ -272,10 +288,13 @@ Section Where.
       + exact Ile.
       + exact Ifl.
       + exact Itkk.
+      + exact Ipk.
+      + intros i pe Hi Hr. apply (Ipr i pe Hi). eapply Permutation_in; [exact HR|exact Hr].
+      + exact Ipf.
     - (* DrainEmit *)
       destruct (fl s) as [|got|n] eqn:Ef; try discriminate.
       destruct (length got =? k) eqn:Ek; [|discriminate]. apply Nat.eqb_eq in Ek. injection Hs as <-.
-      set (s' := St _ _ _ _ _ _ _ _) in *.
+      set (s' := St _ _ _ _ _ _ _ _ _) in *.
       assert (Hemp : chan s = [] /\ held s = []).
       { unfold tokens in Itok. rewrite Ef in Itok; cbn in Itok.
         split; [destruct (chan s)|destruct (held s)]; cbn in Itok; try reflexivity; lia. }
@@ -293,7 +312,7 @@ Section Where.
           + intros H; right; split; [lia|exact H].
           + destruct m; intros []. }
       change (P s') with (P s).
-      split; cbn [fl flushes started next_id taken puts s']; rewrite ?HR', ?HF'.
+      split; cbn [fl flushes started next_id taken puts pute s']; rewrite ?HR', ?HF'.
       + rewrite Htok; exact Itok.
       + red; cbn. red in Iph. rewrite Ef in Iph. rewrite app_length; cbn. destruct k; cbn; lia.
       + cbn. rewrite HRs in Ind. eapply Permutation_NoDup; [|exact Ind].
@@ -310,15 +329,19 @@ Section Where.
       + intros i b t Hi. destruct (Itkk i b t Hi) as [Ht Hf]. split.
         * rewrite app_length; cbn. lia.
         * intros f Hff. apply Hfi in Hff as [Hff|[-> _]]; [apply Hf, Hff|lia].
+      + exact Ipk.
+      + intros i pe _ [].
+      + intros i pe f Hi Hf. apply Hfi in Hf as [Hf|[-> Hg]]; [apply (Ipf i pe f Hi Hf)|].
+        rewrite <- HRs in Hg. rewrite (Ipr i pe Hi Hg). reflexivity.
     - (* FillOne *)
       destruct (fl s) as [|got|[|n]] eqn:Ef; try discriminate.
       destruct (length (chan s) <? k); [|discriminate]. injection Hs as <-.
-      set (s' := St _ _ _ _ _ _ _ _) in *.
+      set (s' := St _ _ _ _ _ _ _ _ _) in *.
       assert (HR : R s' = R s).
       { rewrite !R_eq. unfold s'. cbn [chan held fl]. rewrite Ef, ids_of_app, ids_of_cons, ids_of_nil.
         cbn [s_ids got_of]. destruct n; cbn [after_fill got_of]; rewrite ?app_nil_r; reflexivity. }
       change (P s') with (P s). change (F s') with (F s).
-      split; cbn [fl flushes started next_id taken puts s']; rewrite ?HR; auto.
+      split; cbn [fl flushes started next_id taken puts pute s']; rewrite ?HR; auto.
       + rewrite Htok; exact Itok.
       + red; cbn. red in Iph. rewrite Ef in Iph. destruct n; exact Iph.
   Qed.
@@ -368,13 +391,16 @@ Section Statements.
     /\ (forall i, i < next_id s <-> In i (pending_ids s ++ ids_of (resident s) ++ flushed_ids s))
     /\ (forall i, put_stamp s i <> None <-> In i (ids_of (resident s) ++ flushed_ids s))
     /\ (forall i e, put_stamp s i = Some e -> e < length (flushes s) -> In i (flushed_ids s))
+    /\ (forall i pe, put_emitted s i = Some pe -> pe < length (flushes s) -> In i (flush_ids s (S pe)))
     /\ (forall i f, In i (flush_ids s f) ->
-          exists e t, put_stamp s i = Some e /\ take_stamp s i = Some t /\ t < f /\ e <= f <= S e).
+          exists e pe t, put_stamp s i = Some e /\ put_emitted s i = Some pe /\ take_stamp s i = Some t
+                         /\ f = S pe /\ t < f /\ e <= f <= S e).
   Proof.
     intros Hrun. pose proof (cinv_run _ _ _ _ _ Hrun) as I.
     pose proof (puts_nodup _ I) as Hpn. pose proof (taken_nodup _ I) as Htn.
     split; [exact (i_nodup _ _ I)|]. split; [intros i; symmetry; apply (i_fresh _ _ I)|].
-    split; [|split].
+    assert (Hpen : NoDup (map fst (pute s))) by (rewrite (i_pek _ _ I); exact Hpn).
+    split; [|split; [|split]].
     - intros i. unfold put_stamp. split.
       + intros H. destruct (lookup i (puts s)) as [e|] eqn:E; [|congruence].
         apply lookup_in in E. apply (in_map fst) in E. eapply Permutation_in; [apply (i_puts _ _ I)|exact E].
@@ -385,16 +411,24 @@ Section Statements.
       { eapply Permutation_in; [apply (i_puts _ _ I)|]. apply (in_map fst) in He; exact He. }
       apply in_app_or in Hin as [Hr|Hf]; [|exact Hf].
       pose proof (i_res _ _ I i e He Hr). lia.
+    - intros i pe He Hlt. unfold put_emitted in He. apply lookup_in in He.
+      assert (Hin : In i (R s ++ flushed_ids s)).
+      { eapply Permutation_in; [apply (i_puts _ _ I)|]. rewrite <- (i_pek _ _ I). apply (in_map fst) in He; exact He. }
+      apply in_app_or in Hin as [Hr|Hf]; [pose proof (i_per _ _ I i pe He Hr); lia|].
+      apply in_flushed_flush_ids in Hf as [f Hf]. rewrite <- (i_pef _ _ I i pe f He Hf). exact Hf.
     - intros i f Hf.
       assert (HF : In i (flushed_ids s)) by (eapply flush_ids_in_flushed; exact Hf).
       assert (Hp : In i (map fst (puts s))).
       { eapply Permutation_in; [symmetry; apply (i_puts _ _ I)|]. apply in_or_app; right; exact HF. }
+      assert (Hpe : In i (map fst (pute s))) by (rewrite (i_pek _ _ I); exact Hp).
       assert (Ht : In i (map fst (taken s))).
       { eapply Permutation_in; [symmetry; apply (i_taken _ _ I)|]. apply in_or_app; right. apply in_or_app; right; exact HF. }
-      apply lookup_some_in_keys in Hp as [e He]. apply lookup_some_in_keys in Ht as [[b t] Ht].
-      exists e, t. unfold put_stamp, take_stamp. rewrite He, Ht.
-      split; [reflexivity|]. split; [reflexivity|].
-      apply lookup_in in He. apply lookup_in in Ht.
+      apply lookup_some_in_keys in Hp as [e He]. apply lookup_some_in_keys in Hpe as [pe Hpe].
+      apply lookup_some_in_keys in Ht as [[b t] Ht].
+      exists e, pe, t. unfold put_stamp, put_emitted, take_stamp. rewrite He, Hpe, Ht.
+      split; [reflexivity|]. split; [reflexivity|]. split; [reflexivity|].
+      apply lookup_in in He. apply lookup_in in Hpe. apply lookup_in in Ht.
+      split; [apply (i_pef _ _ I i pe f Hpe Hf)|].
       split; [apply (proj2 (i_tk _ _ I i b t Ht) f Hf)|apply (i_fl _ _ I i e f He Hf)].
   Qed.
 
@@ -460,7 +494,7 @@ Section Content.
       destruct (chan s) as [|sl0 r] eqn:Ec; [discriminate|]. injection Hs as <-.
       assert (Hold : forall i, i < next_id s ->
                 batch_abs (St r ((d, Hold sl0 (next_id s) b) :: held s) (fl s) (flushes s) (started s) (S (next_id s))
-                              ((next_id s, (b, length (flushes s))) :: taken s) (puts s)) i = batch_abs s i).
+                              ((next_id s, (b, length (flushes s))) :: taken s) (puts s) (pute s)) i = batch_abs s i).
       { intros i Hi. unfold batch_abs, batch_of; cbn. destruct (Nat.eqb i (next_id s)) eqn:E; [|reflexivity].
         apply Nat.eqb_eq in E. lia. }
       split.
@@ -541,7 +575,8 @@ Example ex_run_flushes :
   exists s, run (step [] (@app nat) 2) (init [] 2) ex_run = Some s
     /\ map (map s_map) (flushes s) = [[[10]; [11]]; [[]; [12]]]
     /\ flush_ids s 1 = [0; 1] /\ flush_ids s 2 = [2]
-    /\ put_stamp s 1 = Some 1 /\ take_stamp s 1 = Some 0 /\ put_stamp s 2 = Some 1 /\ take_stamp s 2 = Some 1.
+    /\ put_stamp s 1 = Some 1 /\ put_emitted s 1 = Some 0 /\ take_stamp s 1 = Some 0
+    /\ put_stamp s 2 = Some 1 /\ put_emitted s 2 = Some 1 /\ take_stamp s 2 = Some 1.
 Proof. eexists. split; [vm_compute; reflexivity|]. vm_compute. repeat split. Qed.
 
 (* a send that would block is simply not enabled: with every slot taken nobody else can Take, and
